@@ -72,6 +72,15 @@ class NoneV(V):
 NONE = NoneV()
 
 
+class UndefV(V):
+    """A local that is assigned inside a loop cut by an invariant and has no value before it:
+    fine as long as every iteration assigns it before reading it."""
+    kind = "undefined"
+
+
+UNDEF = UndefV()
+
+
 class TupleV(V):
     kind = "tuple"
     __slots__ = ("items",)
